@@ -99,6 +99,9 @@ type VC struct {
 	topFrame *Frame
 	gen      int
 	assertSet map[string]bool
+	quantDepth int
+	softErr  *[]string // when set, errors are collected here instead of making the function UNDECIDED
+	iterField map[string]string
 	specMode bool // evaluating a contract expression: no obligations are generated
 	ctxs     []string
 	sortFacts []sortFact
@@ -168,10 +171,15 @@ type loopInfo struct {
 	iterVal ssa.Value
 	ord     int
 	modSet  map[string]bool
+	frameKeys []string
 }
 
 func (vc *VC) errf(format string, a ...interface{}) {
 	msg := fmt.Sprintf(format, a...)
+	if vc.softErr != nil {
+		*vc.softErr = append(*vc.softErr, msg)
+		return
+	}
 	for _, e := range vc.errs {
 		if e == msg {
 			return
@@ -204,8 +212,8 @@ func (vc *VC) declareFun(name string, args []Sort, res Sort) {
 }
 
 func (vc *VC) assume(t string) {
-	if t == "true" || t == "" {
-		return
+	if t == "true" || t == "" || vc.quantDepth > 0 {
+		return // side facts about terms with bound variables cannot be asserted at top level
 	}
 	if vc.assertSet == nil {
 		vc.assertSet = map[string]bool{}
@@ -704,10 +712,10 @@ func (f *Frame) equal(a, b Val) string {
 		}
 		return eq(a.t, b.t)
 	case strings.HasPrefix(a.s, "Slice_"):
-		if strings.Contains(b.t, "(as const") {
+		if strings.HasPrefix(b.t, "(mk_"+b.s+" true 0 ") {
 			return sx("nil_"+a.s, a.t)
 		}
-		if strings.Contains(a.t, "(as const") {
+		if strings.HasPrefix(a.t, "(mk_"+a.s+" true 0 ") {
 			return sx("nil_"+b.s, b.t)
 		}
 	case a.s == SIface && b.s == SIface:
